@@ -64,6 +64,7 @@ type c16Cfg struct {
 	Wire   bool     // use the wire driver (peer is loopback)
 	TLS    bool     // needs certificate files
 	NoAuth bool     // skip authenticated endpoints
+	HTTPS  bool     // the harness browser presents Secure cookies (instance itself is driven over plain HTTP)
 }
 
 func c16Configs(w *vfWorld, run *vfRun) []c16Cfg {
@@ -74,8 +75,8 @@ func c16Configs(w *vfWorld, run *vfRun) []c16Cfg {
 		{Name: "trusted-ip+skip-auth+api", Host: "proxy.test", Flags: []string{"--trusted-ip=10.0.0.0/8", "--trusted-ip=127.0.0.0/8", "--skip-auth-route=^/open/", "--api-route=^/api/"}, Peers: []string{"", "10.5.5.5:40000"}},
 		{Name: "whitelist+cookie-domain", Host: "www.example.org", Flags: append(append([]string{}, wl...), cd...)},
 		{Name: "relative-redirect-url", Host: "proxy.test", Flags: append([]string{"--redirect-url=/oauth2/callback", "--relative-redirect-url=true"}, wl...)},
-		{Name: "absolute-redirect-url", Host: "proxy.test", Flags: append([]string{"--redirect-url=https://fixed.example.com/oauth2/callback"}, cd...)},
-		{Name: "cookie-secure", Host: "proxy.test", Flags: append([]string{"--cookie-secure=true"}, wl...)},
+		{Name: "absolute-redirect-url", Host: "sub.www.example.org", Flags: append([]string{"--redirect-url=https://fixed.example.com/oauth2/callback"}, cd...)},
+		{Name: "cookie-secure", Host: "proxy.test", HTTPS: true, Flags: append([]string{"--cookie-secure=true"}, wl...)},
 		{Name: "skip-provider-button+all", Host: "app.cookie.example.com", Flags: append(append([]string{"--skip-provider-button=true", "--trusted-ip=10.0.0.0/8", "--skip-auth-route=GET=^/open/", "--api-route=^/api/"}, wl...), cd...), Peers: []string{"", "10.5.5.5:40000"}},
 		{Name: "wire+all", Host: "www.example.org", Wire: true, Flags: append(append([]string{"--trusted-ip=10.0.0.0/8", "--skip-auth-route=^/open/", "--api-route=^/api/"}, wl...), cd...)},
 		{Name: "force-https", Host: "proxy.test:4180", TLS: true, NoAuth: true, Flags: append([]string{"--force-https=true", "--https-address=127.0.0.1:0"}, wl...)},
@@ -304,16 +305,14 @@ func (x *c16Exec) do(ep c16Endpoint, peer string, hdr [][2]string, id string) (*
 	if ep.Flow == "callback-valid" {
 		// a fresh browser starts a login WITHOUT forwarding headers; only the callback request carries them
 		b := vfNewBrowser(x.Cfg.Host)
-		b.Wire = x.Cfg.Wire
+		b.Wire, b.HTTPS = x.Cfg.Wire, x.Cfg.HTTPS
 		l, err := b.StartLogin(x.P, vfStdIdentity, "/after?login=1")
 		if err != nil {
 			return nil, &vfResp{Err: "start failed: " + err.Error(), Header: http.Header{}}
 		}
 		req := vfNewReq("GET", l.CallbackTarget(x.P), "X-Vf-Id", id, "X-Request-Id", "c16-fixed-request-id").WithHost(x.Cfg.Host).From(peer)
-		if cs := b.Jar.For(x.Cfg.Host, "/oauth2/callback", false); len(cs) > 0 {
+		if cs := b.Jar.For(x.Cfg.Host, "/oauth2/callback", x.Cfg.HTTPS); len(cs) > 0 {
 			req.H("Cookie", vfCookieHeader(cs))
-		} else if cs := b.Jar.For(x.Cfg.Host, "/oauth2/callback", true); len(cs) > 0 {
-			req.H("Cookie", vfCookieHeader(cs)) // --cookie-secure over plain http: a browser would not send it; the harness does
 		}
 		req.Headers = append(req.Headers, hdr...)
 		return req, send(req)
@@ -412,6 +411,7 @@ func TestVerif_C16(t *testing.T) {
 		}
 		if !cfg.NoAuth {
 			b := vfNewBrowser(cfg.Host)
+			b.HTTPS = cfg.HTTPS
 			if _, _, err := b.Login(p, vfStdIdentity, "/"); err != nil {
 				t.Fatalf("config %s: login: %v", cfg.Name, err)
 			}
